@@ -52,7 +52,7 @@ TIERS = {
                      pipe_batch=40, sql_extra=380, sql_batch=50,
                      flag_cfgs=['FlagsT1', 'FlagsT2'],
                      flag_model_only=['FlagsT3'],
-                     flag_sim=('FlagsT3S', 'num=3000'), grow_sample=200,
+                     flag_sim=('FlagsT3S', 'num=200'), grow_sample=200,
                      flag_pipe=1500),
 }
 
@@ -173,8 +173,13 @@ def _StringSignatures(rec, verdict, unit_bad=frozenset()):
     # The statement is the reference statement with the emitted literal in
     # place of the marker, up to blanks inserted after newlines.
     ref = rec['ref']
-    want = ref[:rec['at'] - 1] + emitted + ref[rec['at'] - 1 + rec['len']:]
-    sig['indent_only'] = _IndentOnly(rec['sql'], want)
+    try:
+      marker = strlit.EmitLiteral(rec['d'], strlit.MARKER)
+    except Exception:  # pylint: disable=broad-except
+      marker = None
+    sig['indent_only'] = bool(
+        marker and ref.count(marker) == 1 and
+        _IndentOnly(rec['sql'], ref.replace(marker, emitted)))
   text = '%s %s/%s/%s: %s; s=%r got=%r %s' % (
       rec['k'], rec.get('d', 'sqlite'), rec['pos'], rec['ctx'], why, s,
       rec.get('got', '')[:80], detail[:160])
